@@ -1,1 +1,85 @@
-fn main() {}
+//! dsim: deterministic simulation engines for decaf377 that run single-threaded
+//! simulated worlds (iosim: C02 C03 C06 C11; r1csim: C13 C14).
+mod bridge;
+mod common;
+mod io;
+
+use common::Opts;
+use std::path::PathBuf;
+
+fn usage() -> ! {
+    eprintln!(
+        "usage: dsim <io|r1cs> --prop <ID> [--tier quick|thorough] [--seed N] [--runs N] [--max-seconds S]\n\
+         \x20      dsim <io|r1cs> --replay FILE [--quiet]"
+    );
+    std::process::exit(simcore::EXIT_HARNESS)
+}
+
+fn main() {
+    let args: Vec<String> = std::env::args().skip(1).collect();
+    if args.is_empty() {
+        usage();
+    }
+    let engine = args[0].clone();
+    let mut prop: Option<String> = None;
+    let mut replay: Option<PathBuf> = None;
+    let mut quiet = false;
+    let verif = PathBuf::from(std::env::var("VERIF_DIR").unwrap_or_else(|_| "/verif".into()));
+    let mut opts = Opts {
+        tier: std::env::var("VERIF_TIER").unwrap_or_else(|_| "quick".into()),
+        seed: std::env::var("VERIF_SEED")
+            .ok()
+            .and_then(|s| s.parse().ok())
+            .unwrap_or(simcore::prng::DEFAULT_SEED),
+        runs: None,
+        max_seconds: None,
+        evidence_dir: verif.join("evidence"),
+        replay_dir: verif.join("replays"),
+        known_path: verif.join("known_findings.txt"),
+        dump_digest: None,
+    };
+    let mut i = 1;
+    while i < args.len() {
+        let a = args[i].as_str();
+        let mut val = || {
+            i += 1;
+            args.get(i).cloned().unwrap_or_else(|| usage())
+        };
+        match a {
+            "--prop" => prop = Some(val()),
+            "--tier" => opts.tier = val(),
+            "--seed" => opts.seed = val().parse().unwrap_or_else(|_| usage()),
+            "--runs" => opts.runs = Some(val().parse().unwrap_or_else(|_| usage())),
+            "--max-seconds" => opts.max_seconds = Some(val().parse().unwrap_or_else(|_| usage())),
+            "--replay" => replay = Some(PathBuf::from(val())),
+            "--evidence-dir" => opts.evidence_dir = PathBuf::from(val()),
+            "--replay-dir" => opts.replay_dir = PathBuf::from(val()),
+            "--known" => opts.known_path = PathBuf::from(val()),
+            "--dump-digest" => opts.dump_digest = Some(PathBuf::from(val())),
+            "--quiet" => quiet = true,
+            _ => usage(),
+        }
+        i += 1;
+    }
+    if opts.tier != "quick" && opts.tier != "thorough" {
+        usage();
+    }
+    common::install_quiet_panic_hook();
+    let code = std::panic::catch_unwind(|| match (engine.as_str(), &replay, &prop) {
+        ("io", Some(p), _) => io::replay(p, quiet),
+        ("io", None, Some(p)) if ["C02", "C03", "C06", "C11"].contains(&p.as_str()) => {
+            io::run_check(p, &opts)
+        }
+        _ => {
+            eprintln!("HARNESS-ERROR: unknown engine/property combination");
+            simcore::EXIT_HARNESS
+        }
+    });
+    match code {
+        Ok(c) => std::process::exit(c),
+        Err(_) => {
+            eprintln!("HARNESS-ERROR: the harness itself panicked");
+            std::process::exit(simcore::EXIT_HARNESS)
+        }
+    }
+}
